@@ -14,6 +14,11 @@ MSG = {'empty': "Empty table!", 'obssize': "Number of observation IDs differs fr
 def _trigger_args(kind, dense):
     """constructor arguments that trigger exactly `kind` (None: nothing) on a 2x2 matrix"""
     oids, sids, omd, smd = ['o1', 'o2'], ['s1', 's2'], None, None
+    if kind in ('obsmdsize', 'sampmdsize'):
+        bad = pick([[{'a': 1}, {'a': 2}, {'a': 3}], [{'a': 1}], []], 'metadata-length-variant')
+        if kind == 'obsmdsize':
+            return oids, sids, list(bad), smd
+        return oids, sids, omd, list(bad)
     if kind == 'obssize':
         oids = ['o1', 'o2', 'o3']
     elif kind == 'sampsize':
